@@ -584,6 +584,25 @@ theorem idcstar_collapse_zero_only_on_conflict (cf : MG Var) (outcomes : Event) 
     (∃ p ∈ outcomes, ∃ k v v', exchangeKey cf cond val p = .ok (k, v) ∧ rem.get? k = some v' ∧ v' ≠ v) :=
   exchangeStep_none cf outcomes cond val rem h
 
+/-- **the line-4 loop answers Zero EXACTLY when the re-keyed outcomes are contradictory among themselves or with a remaining
+condition**: when every `intervene` of the loop succeeds (`qs` are the re-keyed outcomes, in loop order; an error of `intervene`
+surfaces before any answer), the loop reports "inconsistent" if and only if two entries of `qs` at different positions (`[a, b]` is a
+sublist of `qs`) have the same key and different values, or some entry of `qs` has a key that the dict of the remaining conditions
+maps to a different value -/
+theorem idcstar_collapse_zero_iff_conflict (cf : MG Var) (outcomes : Event) (cond : Var) (val : Iv) (rem : Event)
+    (qs : List (Var × Iv)) (hm : outcomes.mapM (exchangeKey cf cond val) = .ok qs) :
+    exchangeStep cf outcomes cond val rem = .ok none ↔
+      ((∃ a b, [a, b].Sublist qs ∧ a.1 = b.1 ∧ a.2 ≠ b.2) ∨ (∃ q ∈ qs, ∃ v', rem.get? q.1 = some v' ∧ v' ≠ q.2)) :=
+  exchangeStep_none_iff cf outcomes cond val rem qs hm
+
+/-- … and it returns a dict, namely `dict(qs)`, exactly when the re-keyed outcomes contradict neither one another nor a remaining
+condition (the loop has no third answer: `exchangeStep` is `.ok none`, `.ok (some (dict qs))`, or -- `hm` failing -- an error) -/
+theorem idcstar_exchange_dict_iff_no_conflict (cf : MG Var) (outcomes : Event) (cond : Var) (val : Iv) (rem : Event)
+    (qs : List (Var × Iv)) (hm : outcomes.mapM (exchangeKey cf cond val) = .ok qs) :
+    exchangeStep cf outcomes cond val rem = .ok (some (Event.ofList qs)) ↔
+      (qs.Pairwise (fun a b => a.1 = b.1 → a.2 = b.2) ∧ ∀ q ∈ qs, ∀ v, rem.get? q.1 = some v → v = q.2) :=
+  exchangeStep_some_iff cf outcomes cond val rem qs hm
+
 /-- … and it never does when the re-keyed outcomes are pairwise different and none of them is the variable of a remaining condition
 with a different value: then the loop returns exactly them -/
 theorem idcstar_no_collapse_no_zero (cf : MG Var) (outcomes : Event) (cond : Var) (val : Iv) (rem : Event) (qs : List (Var × Iv))
